@@ -379,7 +379,13 @@ func TestC07_ParserAcceptsExactly(t *testing.T) {
 		case "req-delta-invalid-patch":
 			ps := m.Delta["patches"].([]interface{})
 			pos := rapid.IntRange(0, len(ps)).Draw(t, "badPatchPos")
+			badID := rapid.SampledFrom(badIDs).Draw(t, "invalidID")
 			bad := rapid.SampledFrom([]interface{}{
+				map[string]interface{}{"action": "add-public-keys", "publicKeys": []interface{}{map[string]interface{}{"id": badID, "type": tJWK2020, "publicKeyJwk": docJWK(pool()[ktP256][0])}}},
+				map[string]interface{}{"action": "remove-public-keys", "ids": []interface{}{"ok", badID}},
+				map[string]interface{}{"action": "remove-services", "ids": []interface{}{badID}},
+				map[string]interface{}{"action": "add-services", "services": []interface{}{map[string]interface{}{"id": badID, "type": "t", "serviceEndpoint": "https://x.example"}}},
+				map[string]interface{}{"action": "replace", "document": map[string]interface{}{"publicKeys": []interface{}{map[string]interface{}{"id": badID, "type": tJWK2020, "publicKeyJwk": docJWK(pool()[ktP256][0])}}}},
 				map[string]interface{}{"action": "remove-public-keys", "ids": []interface{}{}},
 				map[string]interface{}{"action": "add-public-keys", "publicKeys": []interface{}{map[string]interface{}{"id": "k", "type": tJWK2020}}},
 				map[string]interface{}{"action": "add-services", "services": []interface{}{map[string]interface{}{"id": "s s", "type": "t", "serviceEndpoint": "https://x.example"}}},
